@@ -13,6 +13,9 @@ import (
 	"bytes"
 	"fmt"
 	"io"
+	"runtime"
+	"sort"
+	"sync"
 	"time"
 
 	"github.com/glowlabs-org/gca-backend/glow"
@@ -27,7 +30,7 @@ func init() {
 		Real:           []string{"ArchiveHandler, addFile, addPubKeyFile, rate limiter", "all write paths used by the bursts", "rotation loop"},
 		Stub:           []string{"socket listeners"},
 		Assumptions:    []string{"one write call is atomic with respect to a concurrent read of the same file (README, File Writing and Archiving): bursts are injected between files, not inside a write"},
-		RequiredProbes: []string{"c14.burst.new-device", "c14.burst.registration", "c14.burst.rotation", "c14.burst.reports", "c14.rate-limited", "c14.archive-ok"},
+		RequiredProbes: []string{"c14.burst.new-device", "c14.burst.registration", "c14.burst.rotation", "c14.burst.reports", "c14.rate-limited", "c14.archive-ok", "c14.overlapping-requests", "c14.paired-requests"},
 		RequiredSites:  []string{"archive.file", "archive.pubkey"},
 	})
 }
@@ -57,15 +60,56 @@ func runC14(m *Sim) {
 	}
 	w.S.EnableSites("archive.file", "archive.pubkey")
 	bursts := 0
+	var oks []c14Reply
+	// The limiter is consulted in the first step of a request: the moment its
+	// task is released from its start is its admission time.
+	admittedAt := map[*HTTPResult]time.Duration{}
+	var admMu sync.Mutex
+	archiveAsync := func(label string, res *HTTPResult) *Task {
+		return w.Go(label+":GET/api/v1/archive@"+n.Name, func() {
+			admMu.Lock()
+			admittedAt[res] = time.Since(m.Start)
+			admMu.Unlock()
+			defer func() {
+				if r := recover(); r != nil {
+					buf := make([]byte, 16<<10)
+					k := runtime.Stack(buf, false)
+					res.Panic = r
+					res.Stack = string(buf[:k])
+				}
+			}()
+			res.Status, res.Body = n.serve("GET", "/api/v1/archive", nil, nil)
+		})
+	}
 	w.OnPark = func(p *Parked) {
 		if p.Site != "archive.file" && p.Site != "archive.pubkey" {
 			return
+		}
+		if m.C.Chance("time-passes-in-gap", 1, 6) {
+			// A slow disk: milliseconds pass inside the request.
+			w.Advance(time.Duration(1+m.C.Int("gap-ms", 40)) * time.Millisecond)
+			h.AfterRotations()
 		}
 		if !m.C.Chance("burst", 1, 2) {
 			return
 		}
 		bursts++
 		m.Probe("nontrivial")
+		if m.C.Chance("second-archive-request", 1, 5) {
+			// Another archive request arrives while this one sits between two
+			// files (it runs to its end here); afterwards the usual burst, so that
+			// e.g. the registration falls between the two requests' reads.
+			res := &HTTPResult{}
+			at := time.Since(m.Start) // nested: released and run here, no time passes before its first step
+			w.Finish(archiveAsync("archive-overlap", res))
+			if res.Panic != nil {
+				m.Fail("C14.panic", "archive", "archive handler panicked: %v\n%s", res.Panic, firstRepoFrames(res.Stack))
+			}
+			if res.Status == 200 {
+				oks = append(oks, c14Reply{at: at, body: res.Body})
+			}
+			m.Probe("c14.overlapping-requests")
+		}
 		switch m.C.Weighted("burst-kind", 3, 2, 2, 3) {
 		case 0: // new device + its first report
 			if n.Model.Registered && len(h.Devs) < 6 {
@@ -98,7 +142,6 @@ func runC14(m *Sim) {
 			}
 		}
 	}
-	var oks []c14Reply
 	consts := server.VerifConsts()
 	narch := 3 + m.C.Int("archives", 8)
 	for i := 0; i < narch; i++ {
@@ -128,7 +171,26 @@ func runC14(m *Sim) {
 		// The limiter is consulted in the first step of the request, before
 		// any park: this is the admission time.
 		admitted := time.Since(m.Start)
-		t := n.RequestAsync("archive", "GET", "/api/v1/archive", nil, res)
+		t := archiveAsync("archive", res)
+		if m.C.Chance("paired-request", 1, 4) {
+			// Two requests in flight together: the scheduler interleaves them at
+			// the gaps between the files (and bursts land between their reads).
+			res2 := &HTTPResult{}
+			t2 := archiveAsync("archive-pair", res2)
+			w.Finish(t)
+			w.Finish(t2)
+			if res2.Panic != nil {
+				m.Fail("C14.panic", "archive", "archive handler panicked: %v\n%s", res2.Panic, firstRepoFrames(res2.Stack))
+			}
+			if res2.Status == 200 {
+				at2, ok2 := admittedAt[res2]
+				if !ok2 {
+					panic("harness: no admission time recorded for " + t2.Name)
+				}
+				oks = append(oks, c14Reply{at: at2, body: res2.Body})
+			}
+			m.Probe("c14.paired-requests")
+		}
 		w.Finish(t)
 		if res.Panic != nil {
 			m.Fail("C14.panic", "archive", "archive handler panicked: %v\n%s", res.Panic, firstRepoFrames(res.Stack))
@@ -136,6 +198,9 @@ func runC14(m *Sim) {
 		m.Sig = append(m.Sig, fmt.Sprintf("a:%d", res.Status))
 		switch res.Status {
 		case 200:
+			if at, ok := admittedAt[res]; ok {
+				admitted = at
+			}
 			oks = append(oks, c14Reply{at: admitted, body: res.Body})
 			m.Probe("c14.archive-ok")
 		case 429:
@@ -148,6 +213,7 @@ func runC14(m *Sim) {
 
 	// Rate bound (certain violations only): limit+1 replies with status 200
 	// inside a span strictly shorter than the rate window.
+	sort.SliceStable(oks, func(i, j int) bool { return oks[i].at < oks[j].at })
 	for i := 0; i+consts.ArchiveLimit < len(oks); i++ {
 		span := oks[i+consts.ArchiveLimit].at - oks[i].at
 		if span < consts.ArchiveRate {
